@@ -553,7 +553,9 @@ class MapTypeIO(GraphSONTypeIO):
             itertools.islice(a, 0, None, 2),
             itertools.islice(b, 1, None, 2)
         ):
-            out[reader.deserialize(key)] = reader.deserialize(val)
+            key = reader.deserialize(key)
+            # a blob key is read as an (unhashable) bytearray: kept as bytes
+            out[bytes(key) if isinstance(key, bytearray) else key] = reader.deserialize(val)
         return out
 
 
